@@ -392,6 +392,10 @@ func init() {
 		c.Assume = append(c.Assume, "the byte-level space is covered as: all prefixes and structural-byte substitutions of short valid messages plus the structured alphabet; coverage-guided fuzzing of arbitrary byte strings is sampling and is out of family (DESIGN section 5)", "memnet replaces net/http (its per-connection panic recovery is modelled; every handler panic is still a violation)")
 		c.Enumerate("c06/inputs")
 		c.Enumerate("c06/configured-paths")
+		// "leak a goroutine per request or stop serving other clients": peers that connect, call and vanish
+		// (also mid-call), with no / a derived / a from-scratch context function (shared with C08)
+		c.Enumerate("c08/server-release")
+		c.Enumerate("c08/server-release-inflight")
 		names := make([]string, 0, len(c06ConcBad))
 		for n := range c06ConcBad {
 			names = append(names, n)
